@@ -220,7 +220,9 @@ ObsSnap(o, e) ==
       bt == {n \in DOMAIN o.b : n \in DOMAIN e.backends /\ e.backends[n].total # o.b[n].disp - o.b[n].infl
                                                           /\ e.backends[n].total # o.b[n].disp - o.b[n].infl - o.b[n].disp0}
       bt0 == {n \in DOMAIN o.b : n \notin DOMAIN e.backends /\ o.b[n].disp - o.b[n].infl # 0}
-      vBT == IF bt \cup bt0 # {} THEN <<V("C13", "BackendTotals", CHOOSE n \in bt \cup bt0 : TRUE)>> ELSE <<>>
+      \* an entry published under one backend's name that describes another one
+      bn == {n \in DOMAIN e.backends : e.backends[n].name # n}
+      vBT == IF bt \cup bt0 \cup bn # {} THEN <<V("C13", "BackendTotals", CHOOSE n \in bt \cup bt0 \cup bn : TRUE)>> ELSE <<>>
       g1 == {n \in DOMAIN o.b : n \in DOMAIN e.backends /\ e.backends[n].active # inflight[n]}
       g2 == {n \in DOMAIN o.b : n \in DOMAIN e.health /\ e.health[n].active # inflight[n]}
       g3 == {i \in DOMAIN e.list : e.list[i].name \in DOMAIN o.b /\ e.list[i].active # inflight[e.list[i].name]}
